@@ -48,6 +48,15 @@ pub mod sym {
 
 fn main() {
     let engine = std::env::args().nth(1).expect("engine");
+    if engine == "features" {
+        // probe used by tools/rtlib.py: which runtime feature build is this executable?
+        let mut f: Vec<&str> = Vec::new();
+        if cfg!(feature = "async-spawn") { f.push("async-spawn"); }
+        if cfg!(feature = "inter-task-wakeup") { f.push("inter-task-wakeup"); }
+        if cfg!(feature = "futures-stream") { f.push("futures-stream"); }
+        println!("features:{}", f.join(","));
+        return;
+    }
     let f: fn(&str) -> String = match engine.as_str() {
         "realloc" => realloc::handle,
         "script" => script::handle,
